@@ -122,6 +122,21 @@ theorem notifyOne_cases (s : State) (k : Nat) :
       omega
   | some w => right; exact ⟨w, List.mem_of_getElem? hw, rfl⟩
 
+theorem pick_cases (l : List Nat) (k : Nat) :
+    (l = [] ∧ l[k % l.length]? = none) ∨ (∃ j, j ∈ l ∧ l[k % l.length]? = some j) := by
+  cases hw : l[k % l.length]? with
+  | none =>
+    left
+    refine ⟨?_, rfl⟩
+    rw [List.getElem?_eq_none_iff] at hw
+    cases l with
+    | nil => rfl
+    | cons a l =>
+      have := Nat.mod_lt k (show 0 < l.length + 1 by omega)
+      simp only [List.length_cons] at hw
+      omega
+  | some w => right; exact ⟨w, List.mem_of_getElem? hw, rfl⟩
+
 macro "inv_simp" : tactic =>
   `(tactic| ((try dsimp only [newJob, setPc]); try simp only [upd_apply]))
 macro "inv_grind" : tactic =>
